@@ -218,6 +218,17 @@ def gen_moves(rng):
     labs = col_labels(spec)
     op = rng.choice(['set_index', 'set_index', 'set_index_hierarchy', 'set_index_hierarchy', 'shift', 'shift'])
     c = {'k': 'moves', 'spec': spec, 'op': op, 'drop': rng.random() < 0.6, 'n': n}
+    if rng.random() < 0.12 and op != 'shift':
+        # every column is consumed (drop=True): the intermediate frame has rows and no column; then unset_index
+        spec = rand_rel_frame(rng, n, 1 if op == 'set_index' else rng.choice([2, 2, 3]), 0, unique_keys=op == 'set_index',
+                              key_kind=rng.choice(['str', 'int']), index_kind=rng.choice(['auto', 'str']), key_values=3, na=0)
+        labs = col_labels(spec)
+        c = {'k': 'moves', 'spec': spec, 'op': op, 'drop': True, 'n': n, 'all_columns': True, 'sorted': True}
+        if op == 'set_index':
+            c['col'], c['names'] = tok(labs[0]), []
+        else:
+            c['cols'], c['names'] = [tok(x) for x in rng.sample(labs, len(labs))], []
+        return c
     if op == 'set_index':
         c['col'] = tok(rng.choice(labs)) if rng.random() < 0.95 else tok('missing')
         c['names'] = [tok('ix')] if (not c['drop'] or rng.random() < 0.3) else []
@@ -361,18 +372,27 @@ def nontrivial(c):
 
 # ------------------------------------------------------------------ model lines
 def model_lines(c):
-    try:
-        if c['k'] == 'moves':
-            return moves_lines(c)
-        if c['k'] == 'join':
-            return join_lines(c)
-        if c['k'] == 'pivot':
-            return pivot_lines(c)
-        if c['k'] == 'stack':
-            return stack_lines(c)
-    except Exception:
-        return []
+    # no blanket try/except: an encoding error must surface (check.py reports it), never silence the model
+    if c['k'] == 'moves':
+        return moves_lines(c)
+    if c['k'] == 'join':
+        return join_lines(c)
+    if c['k'] == 'pivot':
+        return pivot_lines(c)
+    if c['k'] == 'stack':
+        return stack_lines(c)
     return []
+
+
+MODEL_OFF = False   # set by check.py when the driver cannot be built
+
+
+def need_model(ctx, c, outs, fails, expected=True):
+    """a case that should have a model answer but has none is a correspondence failure"""
+    if outs:
+        ctx.count('model_compared')
+    elif expected and not MODEL_OFF:
+        fails.append(Failure('corr', f'{c["k"]}: no model answer (model_lines produced nothing)', c))
 
 
 def w_hframe(o):
@@ -488,14 +508,16 @@ def pivot_lines(c):
 def evaluate(ctx, c, outs):
     k = c['k']
     ctx.count(f'kind_{k}')
+    pre = []
+    need_model(ctx, c, outs, pre, expected=(k != 'pivot' or pivot_model_ok(c)))
     if k == 'moves':
-        return eval_moves(ctx, c, outs)
+        return pre + eval_moves(ctx, c, outs)
     if k == 'join':
-        return eval_join(ctx, c, outs)
+        return pre + eval_join(ctx, c, outs)
     if k == 'pivot':
-        return eval_pivot(ctx, c, outs)
+        return pre + eval_pivot(ctx, c, outs)
     if k == 'stack':
-        return eval_stack(ctx, c, outs)
+        return pre + eval_stack(ctx, c, outs)
     raise ValueError(k)
 
 
@@ -567,6 +589,8 @@ def eval_moves(ctx, c, outs):
     op = c['op']
     drop = c['drop']
     ctx.count(f'moves_{op}')
+    if drop and op != 'shift' and m > 0 and ((op == 'set_index' and m == 1) or (op != 'set_index' and len(set(c['cols'])) == m)):
+        ctx.count('moves_every_column_consumed')
     cols_flat = [x[0] for x in o['columns']]
     auto = [[ct(i)] for i in range(n)]
     if op == 'set_index':
@@ -619,18 +643,13 @@ def eval_moves(ctx, c, outs):
     # --- first step vs reference and model
     if exp[0] == 'err':
         ctx.count(f'moves_expected_error_{exp[1]}')
-        all_cols = op != 'shift' and drop and m > 0 and (m == 1 if op == 'set_index' else len({ct(untok(t)) for t in c['cols']}) == m)
-        if all_cols and real[0] == 'err' and type(real[2]).__name__ == 'ErrorInitTypeBlocks':
-            fails.append(Failure('oracle', f'{op} drop=True of every column: raised ErrorInitTypeBlocks before the label checks', c,
-                                 detail={'hint': 'set-index-drop-all-columns'}))
-        elif real[0] != 'err':
+        if real[0] != 'err':
             fails.append(Failure('oracle', f'{op} on {c.get("col") or c.get("cols")}: expected an error ({exp[1]}), got a frame', c))
         elif real[1] not in (exp[1], 'indexInit' if exp[1] == 'nonUnique' else exp[1]):
             fails.append(Failure('oracle', f'{op}: error category {real[1]} ({type(real[2]).__name__}) != expected {exp[1]}', c))
     elif real[0] == 'err':
-        drop_all = op != 'shift' and drop and len(set(sel)) == m and type(real[2]).__name__ == 'ErrorInitTypeBlocks'
         fails.append(Failure('oracle', f'{op} {c.get("col") or c.get("cols")} drop={drop}: raised {type(real[2]).__name__}: {real[2]}', c,
-                             detail={'exc': type(real[2]).__name__, 'hint': 'set-index-drop-all-columns' if drop_all else None}))
+                             detail={'exc': type(real[2]).__name__}))
     else:
         got = frame_obs(real[1])
         d = cmp_obs(exp[1], got, f'{op} drop={drop}', check_names=True)
@@ -1058,6 +1077,4 @@ def classify(f):
         return 'C20-pivot-singleton-func'
     if hint == 'pivot-index-fields-order':
         return 'C20-pivot-index-fields-order'
-    if hint == 'set-index-drop-all-columns':
-        return 'C20-set-index-drop-all-columns'
     return None
